@@ -297,7 +297,9 @@ def run(ctx):
             if l.get("op") == "decode":
                 per[l["i"]] = (list(l["out"]), l["err"])
         behaviours[keyb] = (st["variant"], st["wire"], [per[i + 1] for i in range(len(st["wire"]))])
-    key = RSA.generate(1024, randfunc=random.Random(ctx.seed + 70).randbytes)
+    # team-server keys of several sizes (the metadata blob is as long as the modulus)
+    all_keys = [RSA.generate(1024, randfunc=random.Random(ctx.seed + 70).randbytes), RSA.generate(2048, randfunc=random.Random(ctx.seed + 71).randbytes),
+                RSA.generate(1536, randfunc=random.Random(ctx.seed + 72).randbytes)]
     rng = random.Random(ctx.seed + 7)
     wires = {}
     for variant, wire, per in behaviours.values():
@@ -305,6 +307,7 @@ def run(ctx):
     conf_names = list(CONFIGS)
     n_done = 0
     for wi, (wire, per_variant) in enumerate(wires.values()):
+        key = all_keys[0] if wi % 3 else all_keys[1 + (wi // 3) % 2]
         for conf_name in (conf_names if not q else [conf_names[wi % len(conf_names)], conf_names[(wi + 2) % len(conf_names)]]):
             o = core.guarded(produce, client_mod, c2, beacon, key, conf_name, wire, ctx.seed * 1000 + wi, seconds=60)
             if o[0] != "ok":
